@@ -9,7 +9,7 @@ import (
 	"go/token"
 	"go/types"
 
-	"golang.org/x/tools/go/ssa"
+	"trzszlint/xssa"
 )
 
 // derefOperand: the value whose nil-ness makes in panic (nil when in cannot panic that way).
